@@ -71,6 +71,19 @@ def main():
         yn, yd = float(y).as_integer_ratio()
         cmps.append({"op": rng.choice(["lt", "gt", "le", "ge", "eq"]), "a": {"m": ["int", str(x), "1"], "u": [[p1, s1, 1]]},
                      "b": {"m": ["float", str(yn), str(yd)], "u": [[p2, s2, 1]]}, "delta": str(delta)})
+    # the same reading on two scales (0 and 0, 100 and 100, ...) is equal only when the scales coincide there
+    for s1 in scales:
+        for s2 in scales:
+            for p1, p2 in ((None, None), ("kilo", None), (None, "milli")):
+                for x in (0, 100, -40):
+                    a1, b1 = ideal(s1, pv[p1] if p1 else 1, "kelvin", 1); a2, b2 = ideal(s2, pv[p2] if p2 else 1, "kelvin", 1)
+                    kx, ky = a1 * x + b1, a2 * x + b2
+                    if kx != ky and abs(kx - ky) < Fraction(1, 1000) * max(abs(kx), abs(ky), 1): continue
+                    for op in ("eq", "lt", "le", "gt", "ge"):
+                        want = {"eq": kx == ky, "lt": kx < ky, "le": kx <= ky, "gt": kx > ky, "ge": kx >= ky}[op]
+                        if kx == ky and (s1 != s2 or p1 != p2): continue      # exact ties reached through floats may round either way
+                        for kind in ("int", "float"):
+                            cmps.append({"op": op, "a": {"m": ["int", str(x), "1"], "u": [[p1, s1, 1]]}, "b": {"m": [kind, str(x), "1"], "u": [[p2, s2, 1]]}, "want": want})
     r = impl("convsys_worker.py", {"systems": True, "cases": cases + cmps})
     cases = [with_ref(cs) for cs in cases]
     res_c = r["results"][:len(cases)]; res_k = r["results"][len(cases):]
@@ -130,9 +143,12 @@ def main():
             c.violation("decimal-lost", "Decimal magnitude became " + res["m"][0], repl)
     for cs, res in zip(cmps, res_k):
         c.count(cs)
-        d = Fraction(cs["delta"]); want = {"lt": d > 0, "le": d > 0, "gt": d < 0, "ge": d < 0, "eq": False}[cs["op"]]
+        if "want" in cs:
+            want = cs["want"]; d = "same reading on two scales"
+        else:
+            d = Fraction(cs["delta"]); want = {"lt": d > 0, "le": d > 0, "gt": d < 0, "ge": d < 0, "eq": False}[cs["op"]]; d = float(d)
         if res.get("bool") != want:
-            c.violation("compare:" + cs["op"], f"{cs['op']} is {res.get('bool', res.get('err'))}, kelvin values differ by {float(d)}", {"case": cs, "implementation": res})
+            c.violation("compare:" + cs["op"], f"{cs['op']} is {res.get('bool', res.get('err'))} but the kelvin values say {want} ({d})", {"case": cs, "implementation": res})
     c.sample({"convert": cases[5]["a"], "to": cases[5]["b"], "result": res_c[5].get("m")}); c.sample({"compare": cmps[0], "result": res_k[0]})
     c.finish(rule="all 16 ordered pairs of {K, degC, degF, R} x (no prefix + every registered same-base prefix)^2 (exhaustive grid, both as a Coq obligation on "
                   "the regenerated graph and on the implementation), plus int/float/Decimal magnitudes incl. below absolute zero per unprefixed pair, plus "
